@@ -242,6 +242,11 @@ func (m *ServerConfig) GetTlsConfig() (conf *tls.Config, err error) {
 	return
 }
 
+// ClientCertRequired tells if clients must authenticate with a certificate. Unlike GetTlsConfig it cannot fail.
+func (m *ServerConfig) ClientCertRequired() bool {
+	return m.RequireClientCert
+}
+
 // findFile will try to locale the file based on relaltive path of the configuration location and,
 // failing that, return the provided location as ist
 func findFile(name string) string {
